@@ -515,10 +515,84 @@ def r10(ctx, facts):
                    "element type a sequence of the wrong length is accepted and sent" % (c.name or c.decl or "?").split("::")[-1], c.span)
 
 
+TC_DECLS = ("scylla_cql_core::deserialize::value::DeserializeValue::type_check", "scylla_cql_core::deserialize::row::DeserializeRow::type_check")
+
+
+def r11(ctx, facts):
+    """`at any nesting depth`: a carrier's type_check delegates the check of its element / field types. The verdict of every
+    delegated check must reach the caller: from the point where a delegated check is known to have FAILED no `Ok` may be
+    returned (seed C17-k: the element error is built and dropped, the vector carrier accepts any element type)."""
+    r = ctx.rule("R11", "a failed delegated type_check (element, key, value, field, column) is never turned into acceptance", floor=60)
+    n = 0
+    fam = ctx.facts("family")       # the generated type_checks of /verif/derive_family delegate per field / column in the same way
+    pool = [(facts, x) for x in facts.bodies.mentioning('DeserializeValue::type_check', 'DeserializeRow::type_check')] + \
+           [(fam, x) for x in fam.bodies.mentioning('DeserializeValue::type_check', 'DeserializeRow::type_check')]
+    for facts_, b in pool:
+        if b.crate not in ("scylla_cql_core", "derive_family") or "::promoted[" in b.path:
+            continue
+        calls = [c for bb, c in b.calls() if bb in b.live_blocks and (c.decl or "") in TC_DECLS]
+        if not calls:
+            continue
+        df = df_of(b, facts_)
+        oks = set()
+        for bb in b.live_blocks:
+            for st in b.stmts(bb):
+                if st[0] == "A" and st[2][0] == "agg" and st[2][1][0] == "adt" and st[2][1][1] == "core::result::Result" and st[2][1][2] == "Ok" \
+                        and (st[1][0] == 0 or "Result<" in b.local_ty(st[1][0])):
+                    oks.add(bb)
+        for k, c in enumerate(calls):
+            n += 1
+            key = "%s#%d" % (fn_short(b.path), k)
+            if c.dest[0] == 0 and not c.dest[1]:
+                r.instance("delegated-verdict-propagates:" + key, True, "returned directly", c.span, nontrivial=False)
+                continue
+            # locals that carry the verdict: the call's result, moved / mapped (map_err) / branched (`?`)
+            carriers, work = {c.dest[0]}, [c.dest[0]]
+            while work:
+                l = work.pop()
+                for ubb, kind, op in uses_of_local(b, l):
+                    if kind[0] == "stmt" and kind[1][2][0] == "use" and not kind[1][1][1] and kind[1][1][0] not in carriers:
+                        carriers.add(kind[1][1][0])
+                        work.append(kind[1][1][0])
+                    elif kind[0] == "arg":
+                        t = b.term(ubb)
+                        d = (t[1].get("def") or "").split("::")[-1]
+                        if d in ("map_err", "branch", "or_else", "into", "from") and kind[1] == 0 and t[3][0] not in carriers:
+                            carriers.add(t[3][0])
+                            work.append(t[3][0])
+            returned = 0 in carriers
+            err_edges = []
+            for sw in sorted(b.live_blocks):
+                t = b.term(sw)
+                if t[0] != "switch":
+                    continue
+                e = df.expr_of_operand(t[1])
+                if e[0] == "disc" and e[1][0] in carriers and not e[1][1]:
+                    edges = {int(v): tg for v, tg in t[2]}
+                    tg = edges.get(1, t[3] if 1 not in edges and len(edges) == 1 and 0 in edges else None)
+                    if tg is not None:
+                        err_edges.append((sw, tg))
+            if not err_edges and not returned:
+                r.instance("delegated-verdict-propagates:" + key, False,
+                           "the result of the delegated type_check is neither returned, nor `?`-propagated, nor matched on: a mismatch at this nesting level is ignored", c.span)
+                continue
+            leak = [tg for sw, tg in err_edges if (b.reachable_from(tg) | {tg}) & oks and not _loops_back_before(b, tg, c.bb, oks)]
+            r.instance("delegated-verdict-propagates:" + key, not leak,
+                       "after the delegated type_check has FAILED the function can still return Ok: the mismatch found at this nesting level is dropped "
+                       "and bytes of another type are reinterpreted", c.span)
+    if n == 0:
+        raise AnchorLost("no delegated type_check call found")
+
+
+def _loops_back_before(b, tg, call_bb, oks):
+    """an Ok reachable from the error edge only by going through the delegated call again (next loop iteration) is not a leak"""
+    return not ((b.reachable_from(tg, removed_nodes=[call_bb]) | {tg}) & oks)
+
+
 def check(ctx):
     facts = inline_view(ctx.facts("default"))
     config = ctx.alias.get("default", "default")   # the thorough tier re-runs this module over `full` and `unstable`
-    for fn in (lambda c, f: r1_r2(c, f, config), r3, r4, r5, r6, r7, r8, r9, r10):
+    for fn in (lambda c, f: r1_r2(c, f, config), r3, r4, r5, r6, r7, r8, r9, r10, r11):
         try:
             fn(ctx, facts)
         except AnchorLost as ex:
